@@ -81,7 +81,7 @@ def random_history(rng, limit, mode, n):
 def random_owner_history(rng, limit, n):
     """random owner-level history; the driver skips actions whose object-lifetime
     preconditions do not hold (logged as "skip")"""
-    L = ["reset %d owner" % limit]
+    L = ["reset %d owner unwind" % limit]      # (random histories also destroy owners by stack unwinding)
     names = ["o1", "o2", "o3"]
     for _ in range(n):
         o, o2 = rng.choice(names), rng.choice(names)
@@ -222,7 +222,7 @@ def run(tier):
 
     # 4. drift: Model prediction vs observation (inside the Contract, never a verdict) ----
     # (xlookup events are the driver's own additions after a step, not steps of the schedule)
-    for exp, obs in zip(expected, [e for e in events if e["e"] != "xlookup"]):
+    for exp, obs in zip(expected, [e for e in events if e["e"] not in ("xlookup", "unwound")]):
         if exp is None:
             continue
         for k in ("out", "t"):
